@@ -347,6 +347,23 @@ def lsf_rules(repo, rep):
     check_equal(rep, 'R-FORMULA', 'R-FORMULA::geodepy/geodesy.py::line_sf::lsf', w, val, ref,
                 'line scale factor = k0 (1 + K1 (1 + K2)), K1 = (E1^2+E1E2+E2^2)/(6 rho nu k0^2), K2 = (...)/(36 rho nu k0^2) at the mean latitude; '
                 'a second point given in another zone is first re-projected into zone 1')
+    # the ordinary case on its own: both stations in ONE zone (no re-projection, the eastings enter as they are) - a shortcut taken for
+    # special positions of a station (on the central meridian) is decided here, where its condition is a test of the inputs themselves
+    ev_s = Evaluator(repo, opaque=opq)
+    Es = sym_ellipsoid(ev_s, repo, 'ellipsoid')
+    Ps = sym_projection(ev_s, repo, 'projection')
+    args_s = dict(args)
+    args_s[ps[3]] = Rat.sym('zone1')
+    args_s[ps[7]] = Es
+    args_s[ps[8]] = Ps
+    val_s = ev_s.call_function(f, args_s)
+    orc_s = Oracle(ORACLE, base=repo, opaque=opq)
+    Eos = sym_ellipsoid(orc_s.ev, orc_s.repo, 'ellipsoid')
+    kw_s = dict(kw)
+    kw_s['zone2'] = Rat.sym('zone1')
+    ref_s = orc_s.call('lsf', ellipsoid=Eos, cmscale=Ps.fields['cmscale'], falseeast=Ps.fields['falseeast'], **kw_s)
+    check_equal(rep, 'R-FORMULA', 'R-FORMULA::geodepy/geodesy.py::line_sf::lsf[same zone]', w, val_s, ref_s,
+                'line scale factor of two stations in one zone = k0 (1 + K1 (1 + K2)) for EVERY pair of eastings (a station on the central meridian included)')
     for q, oname, txt in (('rho', 'rho_ref', 'rho = a(1-e^2)/(1-e^2 sin^2 lat)^1.5'), ('nu', 'nu_ref', 'nu = a/sqrt(1-e^2 sin^2 lat)')):
         g = repo.func('geodepy.geodesy', q)
         rep.analysed(g)
